@@ -224,6 +224,38 @@ def phase_migration(ctx, R, orc, r, n):
                 ctx.count(("migration", role, state, json.dumps(specs, sort_keys=True)), res.applied > 0)
 
 
+def phase_pn_order(ctx, R, orc, r, sample):
+    """packet-number ORDER: a window of packet numbers of one space arrives in every permutation;
+    each packet is ack-eliciting and / or acknowledges everything the victim has sent so far (also
+    the packet that carried the victim's own ACKs: ACK of ACK), with or without the victim's delayed-
+    ACK timer firing in between; then timer / transmit / event calls run to termination."""
+    import itertools
+    contents = ["ping", "ack", "ack+ping"]
+    windows = [(3, 4, 5), (0, 1, 2), (1, 3, 5), (0, 2, 3, 5)]
+    work = []
+    for offs in windows:
+        for perm in itertools.permutations(offs):
+            for cont in itertools.product(contents, repeat=len(offs)):
+                for timers in itertools.product([0, 1], repeat=len(offs)):
+                    work.append((perm, cont, timers))
+    if sample is not None:
+        # every permutation x content assignment of the first window with the two most telling timer
+        # patterns, plus a random sample of the rest
+        first = [w for w in work if set(w[0]) == set(windows[0]) and w[2] in ((1, 0, 0), (1, 1, 0), (0, 0, 0), (1, 0, 1))]
+        work = first + r.sample(work, sample)
+    cells = [("server", "connected", "ONE_RTT"), ("client", "connected", "ONE_RTT"), ("server", "streams", "ONE_RTT"),
+             ("client", "hs3", "HANDSHAKE"), ("server", "hs4", "HANDSHAKE"), ("client", "keyupdate", "ONE_RTT")]
+    for i, (perm, cont, timers) in enumerate(work):
+        role, state, epoch = cells[0] if i % 2 == 0 else r.choice(cells)
+        specs = [{"k": "pnseq", "epoch": epoch, "off": o, "content": c, "timer": bool(t)}
+                 for o, c, t in zip(perm, cont, timers)]
+        scn = {"role": role, "state": state, "seed": r.randrange(1000), "post": r.choice(["silent", "continue"]),
+               "qlog": r.random() < 0.1, "inputs": specs}
+        res = R.run_scenario(scn)
+        orc.judge(R, scn, res)
+        ctx.count(("pn-order", role, state, json.dumps(specs)), res.applied > 0)
+
+
 def phase_amplification(ctx, R, orc, r, cat, n):
     """a connection that decides to close while it may send (almost) nothing: (i) a server whose
     3x anti-amplification budget is used up (AMP_STATES) receives a fatal frame from a key-holding
@@ -324,6 +356,34 @@ def phase_transport_parameters(ctx, R, orc, r, limit):
             ctx.count(("tp", role, label), True)
 
 
+def phase_tp_phases(ctx, R, orc, r, per_phase):
+    """the transport-parameter mutation family crossed with the connection phases (fresh is the
+    plain phase above): resumed, resumed with 0-RTT accepted / rejected, after Retry, after Version
+    Negotiation.  The omitted-parameter subsets run exhaustively in the 0-RTT phases."""
+    muts = R.tp_mutations(r)
+    omit = [m for m in muts if m[0].startswith("omit-")]
+    rest = [m for m in muts if not m[0].startswith("omit-")]
+    st = {}
+    for role in ("client", "server"):
+        for phase in R.TP_PHASES[1:]:
+            if per_phase is None:
+                chosen = muts
+            elif phase.startswith("resumed0rtt") and role == "client":
+                chosen = [m for m in omit if m[0].count("-") == 1] + r.sample(omit, per_phase) + r.sample(rest, per_phase)
+            else:
+                chosen = r.sample(omit, max(2, per_phase // 3)) + r.sample(rest, per_phase)
+            for label, op in chosen:
+                seed = r.randrange(1000)
+                res = R.run_tp_scenario(role, label, op, seed, qlog=r.random() < 0.2, phase=phase)
+                scn = {"role": role, "state": "handshake", "phase": phase, "tp_mutation": label, "seed": seed,
+                       "crafted": res.crafted}
+                orc.judge(R, scn, res, kind="tp")
+                k = (phase, bool(getattr(res, "early_data_accepted", False)), bool(getattr(res, "handshake", False)))
+                st[str(k)] = st.get(str(k), 0) + 1
+                ctx.count(("tp-phase", role, phase, label), True)
+    ctx.notes["tp_phase_outcomes"] = st
+
+
 def phase_version_configs(ctx, R, orc, r, per_config):
     """configurations are part of the quantifier: every version_information (and a sample of the
     other) transport-parameter mutations, for each supported_versions list of the victim and of the
@@ -413,7 +473,7 @@ def main(tier):
     all_states = R.STATES + R.SPARE_CID_STATES + R.AMP_STATES + R.ZERO_RTT_STATES
 
     # (a) datagrams
-    phase_datagrams(ctx, R, orc, r, 40 if not thorough else 150, all_states)
+    phase_datagrams(ctx, R, orc, r, 30 if not thorough else 150, all_states)
     ctx.notes["t_datagrams"] = round(time.time() - t0, 1)
 
     # (b) frames by a key-holding peer: role x state x epoch
@@ -422,15 +482,19 @@ def main(tier):
         for state in all_states:
             for epoch in ("ONE_RTT", "INITIAL", "HANDSHAKE", "ZERO_RTT"):
                 cells.append((role, state, epoch))
-    phase_frames(ctx, R, orc, r, cat, 100 if not thorough else None, cells)
+    phase_frames(ctx, R, orc, r, cat, 70 if not thorough else None, cells)
     ctx.notes["t_frames"] = round(time.time() - t0, 1)
-    phase_truncate_repeat(ctx, R, orc, r, cat, 800 if not thorough else 12000,
+    phase_truncate_repeat(ctx, R, orc, r, cat, 600 if not thorough else 12000,
                           ["hs2", "hs4", "connected", "streams", "keyupdate", "closepending", "zrtt1"])
     ctx.notes["t_trunc"] = round(time.time() - t0, 1)
 
     # (b') connection-ID switching with no / one / consumed spare peer connection IDs
     phase_migration(ctx, R, orc, r, 20 if not thorough else 150)
     ctx.notes["t_migration"] = round(time.time() - t0, 1)
+
+    # (b#) packet-number arrival order x ack-eliciting x ACK / ACK-of-ACK content
+    phase_pn_order(ctx, R, orc, r, 180 if not thorough else None)
+    ctx.notes["t_pn_order"] = round(time.time() - t0, 1)
 
     # (b+) closing while the anti-amplification budget leaves no room for a packet
     phase_amplification(ctx, R, orc, r, cat, 8 if not thorough else 40)
@@ -443,6 +507,7 @@ def main(tier):
     # (c) transport parameters
     phase_transport_parameters(ctx, R, orc, r, 120 if not thorough else 10 ** 6)
     phase_version_configs(ctx, R, orc, r, 14 if not thorough else None)
+    phase_tp_phases(ctx, R, orc, r, 12 if not thorough else None)
     ctx.notes["t_tp"] = round(time.time() - t0, 1)
 
     lg.removeHandler(h)
@@ -455,8 +520,8 @@ def main(tier):
     ctx.notes["logging_format_errors"] = len(h.errors)
 
     # T2 correspondence: model outcome class vs the real connection
-    c05_corr.correspond(ctx, R, r, cat, 1000 if not thorough else 12000)
-    c05_corr.correspond_datagrams(ctx, R, r, cat, 1500 if not thorough else 20000, rand_datagram_input)
+    c05_corr.correspond(ctx, R, r, cat, 800 if not thorough else 12000)
+    c05_corr.correspond_datagrams(ctx, R, r, cat, 1200 if not thorough else 20000, rand_datagram_input)
     ctx.notes["t_corr"] = round(time.time() - t0, 1)
 
     ctx.notes["api_calls"] = orc.calls
@@ -519,7 +584,8 @@ def replay(path):
         scn = rep["scenario"]
         ops = dict(R.tp_mutations(rng.make("replay")))
         res = R.run_tp_scenario(scn["role"], scn["tp_mutation"], ops[scn["tp_mutation"]], scn["seed"],
-                                client_options=scn.get("client_options"), server_options=scn.get("server_options"))
+                                client_options=scn.get("client_options"), server_options=scn.get("server_options"),
+                                phase=scn.get("phase", "fresh"))
     else:
         print("nothing to replay in", path)
         return 2
